@@ -63,13 +63,14 @@ def sample_fields(prog, typing):
     rows = []
     for i in range(24):
         f = {}
-        for n in prog.splitters:
+        for j, n in enumerate(prog.splitters):
             ch = vals.get(typing.get(n, "str"), ["x"])
-            v = ch[i % len(ch)]
+            v = ch[(i + j) % len(ch)]
+            # different fields get different values, so that a permuted key is a different key
             if isinstance(v, str):
-                v = "%s%d" % (v, i)
+                v = "%s%d_%s" % (v, i, "abcdefgh"[j % 8] * (j + 1))
             elif isinstance(v, (int, float)) and not isinstance(v, bool):
-                v = v + i
+                v = v + i + 1000 * (j + 1)
             f[n] = v
         rows.append(f)
     return rows
@@ -215,7 +216,13 @@ def check_generator(item):
                                          "why": "code generation writes shared state: %s" % [(e[0], e[2]) for e in foreign][:3],
                                          "plain": ""})
             v = p.outcome.value
-            outs.add(v if isinstance(v, str) else "<symbolic>")
+            if isinstance(v, str):
+                outs.add(v)
+            else:
+                # the generated text itself is symbolic: which process-local values does it contain?
+                wc = world_consts([v.term]) if hasattr(v, "term") else []
+                outs.add("<text depends on %s>" % ([c.decl().name() for c in wc] or "symbolic values"))
+                outs.add("<symbolic>")
         if not expose:
             # translator validation: the interpreted generator reproduces the real text
             if gen.text in outs:
@@ -295,8 +302,19 @@ def check_evaluator(item):
             if isinstance(p.outcome, Unsup):
                 r, m = common.check(tally, p.conds, timeout_ms)
                 if r != "unsat":
-                    out["status"] = "inconclusive"
-                    out["note"] = "evaluator path leaves the subset: " + p.outcome.reason
+                    worldly = [n for n in p.notes if n.startswith("world:")]
+                    if worldly:
+                        rows = sample_fields(prog, {n: sort for n in prog.splitters})
+                        for r_ in rows:
+                            for k in env:
+                                r_.setdefault(k, 1)
+                        out["witnesses"].append({"kind": "process_independence", "text": text,
+                                                 "rows": [{k: enc(v) for k, v in r_.items()} for r_ in rows],
+                                                 "why": "a process-local value (%s) flows into construction/evaluation (%s)"
+                                                        % (worldly[0], p.outcome.reason), "plain": ""})
+                    else:
+                        out["status"] = "inconclusive"
+                        out["note"] = "evaluator path leaves the subset: " + p.outcome.reason
                 continue
             caches = [e for e in p.effects if e[0] == "cache-store"]
             others = [e for e in p.effects if e[0] not in ("cache-store",)]
